@@ -24,7 +24,9 @@ pub struct Case {
 // markup characters, white space, and the first/last character of every range of XML's Char production
 const TEXT: [&str; 19] =
     ["a", "<", ">", "&", "\"", "'", " ", "\n", "\r", "\t", "]", "\u{10000}", "\u{85}", "\u{2028}", "&amp;", "\u{D7FF}", "\u{E000}", "\u{FFFD}", "\u{10FFFF}"];
-const ILLEGAL: [&str; 4] = ["\0", "\u{1}", "\u{fffe}", "\u{ffff}"];
+// the first and last character of every range excluded by XML's Char production
+const ILLEGAL: [&str; 8] = ["\0", "\u{1}", "\u{8}", "\u{b}", "\u{c}", "\u{e}", "\u{1f}", "\u{fffe}"];
+const ILLEGAL2: [&str; 1] = ["\u{ffff}"];
 const PRED_ENDINGS: [&str; 14] = ["#p", "/p", "/1p", "/p.q", "/", "#", ":p", "é", "/p-1", "/_", "#é1", "/a/%41", "?q=p", "/p·"];
 
 fn ex(l: &str) -> ATerm {
@@ -67,7 +69,7 @@ impl Pooled for C18 {
             }
         });
         // (2) XML-illegal characters: error or round trip
-        for bad in ILLEGAL {
+        for bad in ILLEGAL.iter().chain(ILLEGAL2.iter()) {
             for ctx in ["", "a", "<"] {
                 let lex = format!("{ctx}{bad}{ctx}");
                 f(&Case { triples: vec![[ex("s"), ex("p"), ATerm::lit(&lex)]], indents: vec![0, 2] });
@@ -249,7 +251,7 @@ pub fn run(tier: Tier) -> Report {
     rep.violations = o.violations;
     rep.caps = o.caps;
     rep.rule = format!(
-        "literal text = every string of length <= {} over [a < > & \" ' space LF CR TAB ] U+10000 U+0085 U+2028 '&amp;' U+D7FF U+E000 U+FFFD U+10FFFF] in plain / language-tagged / datatyped / rdf:XMLLiteral-typed literals; XML-illegal characters (NUL, U+0001, U+FFFE, U+FFFF) in three contexts x six literal kinds (plain, tagged, 4 datatypes); predicates (and the same IRIs as subject, object and datatype) over 3 bases x 14 endings (#p /p /1p /p.q / # :p é /p-1 /_ #é1 /a/%41 ?q=p /p·); every graph of 2..{} triples over a 30-triple universe with shared blank nodes; inexpressible triples mixed in; indentation 0..8 (0 plus a rotating value for every case, all nine on a slice); oracle: the serializer fails, or the output is well-formed XML according to an independent recogniser and parses (toolkit parser) to a graph isomorphic to the expressible part, identically for every indentation; graphs with XML-legal text and QName-able predicates must be accepted; non-trivial = output needed escaping, node IDs or xml:lang",
+        "literal text = every string of length <= {} over [a < > & \" ' space LF CR TAB ] U+10000 U+0085 U+2028 '&amp;' U+D7FF U+E000 U+FFFD U+10FFFF] in plain / language-tagged / datatyped / rdf:XMLLiteral-typed literals; XML-illegal characters (U+0000 U+0001 U+0008 U+000B U+000C U+000E U+001F U+FFFE U+FFFF) in three contexts x six literal kinds (plain, tagged, 4 datatypes); predicates (and the same IRIs as subject, object and datatype) over 3 bases x 14 endings (#p /p /1p /p.q / # :p é /p-1 /_ #é1 /a/%41 ?q=p /p·); every graph of 2..{} triples over a 30-triple universe with shared blank nodes; inexpressible triples mixed in; indentation 0..8 (0 plus a rotating value for every case, all nine on a slice); oracle: the serializer fails, or the output is well-formed XML according to an independent recogniser and parses (toolkit parser) to a graph isomorphic to the expressible part, identically for every indentation; graphs with XML-legal text and QName-able predicates must be accepted; non-trivial = output needed escaping, node IDs or xml:lang",
         tier.pick(2, 3),
         tier.pick(2, 3)
     );
